@@ -106,6 +106,23 @@ func checkRoundTrip(c rtCase) ev.Outcome {
 	if !near(fmt.Sprintf("Unproject(Project(p) + %d wraps)", c.K), lib.Unproject(shifted), tol+3*math.Pi*0x1p-52*4) {
 		return o
 	}
+	// "Unproject must accept any real number on a wrapped axis": many wraps away the
+	// library and the oracle (exact math.Remainder in planar units, then one scaling)
+	// must still agree - the planar x itself is the input here, so its own rounding
+	// does not count
+	for _, kw := range []float64{1e3, -1e5, 1e6, -3e7} {
+		far := r2.Point{X: u.X + kw*ps.wrap(), Y: u.Y}
+		g, w := lib.Unproject(far), ps.unproj(far.X, far.Y)
+		if d := angle(g, w); d > tol && hpAngleExceeds(g, w, tol) {
+			o.Err = fmt.Sprintf("%s scale %g: Unproject(%v) (%.0g wraps out) is %.3g rad from the exactly reduced point", ps.name(), ps.Scale, far, kw, d)
+			return o
+		}
+		gl, wl := lib.ToLatLng(far), s2.LatLngFromPoint(w)
+		if d := math.Abs(math.Remainder(gl.Lng.Radians()-wl.Lng.Radians(), 2*math.Pi)); d > tol && math.Abs(wl.Lat.Radians()) < 1.5 {
+			o.Err = fmt.Sprintf("%s scale %g: ToLatLng(%v).Lng (%.0g wraps out) is %.3g rad from the exactly reduced longitude", ps.name(), ps.Scale, far, kw, d)
+			return o
+		}
+	}
 	// the LatLng convenience forms are equivalent
 	if f := lib.FromLatLng(s2.LatLngFromPoint(p)); f != u {
 		o.Err = fmt.Sprintf("FromLatLng(LatLngFromPoint(p)) = %v differs from Project(p) = %v", f, u)
